@@ -20,7 +20,7 @@ from . import dtl_common as dc
 from . import render_common as rc
 from . import super_common as sc
 
-CLAUSES = {"ClauseNoFailure", "ClauseLayoutEventNodes", "ClauseLayoutLossMarkers", "ClauseLayoutTransfers",
+CLAUSES = {"ClauseMeasureCount", "ClauseMeasureOrder", "ClauseNoFailure", "ClauseLayoutEventNodes", "ClauseLayoutLossMarkers", "ClauseLayoutTransfers",
            "ClauseDrawnEventNodes", "ClauseDrawnLossMarkers", "ClauseDrawnTransferArrows", "ClauseDrawnStatementsLocated"}
 
 
@@ -83,6 +83,44 @@ def labels_for(rng, inp, m, fam):
         fams = sorted({f for w in cl[u - 1] for f in inp["syn"][w - 1]})
         lab.append(list(inp["syn"][u - 1]) if u in proj.leaves_of(ot) else fams)
     return lab
+
+
+def measure_events(rng, n):
+    """tex.measure with a canned TeX engine: the compiler is replaced by a stub
+    that answers every \\savebox of the source with one `$$$w,h,d` line (among
+    other log lines); the boxes must come back one per text, in order."""
+    import re
+    A = rc.api()
+    from superrec2.utils import tex
+    original = tex.tex_compile
+    out = []
+    try:
+        for _ in range(n):
+            k = rng.randint(0, 12)
+            texts = ["".join(rng.choice("ab_\\{} $") for _ in range(rng.randint(0, 6))) for _ in range(k)]
+            sent = [[rng.randint(0, 999), rng.randint(0, 999), rng.randint(0, 99)] for _ in range(k)]
+
+            def fake_compile(source, dest=None, sent=sent):
+                boxes = len(re.findall(r"\\savebox\{\\measurebox\}", source))
+                lines = ["This is a canned TeX engine", "(./input.tex", "LaTeX2e"]
+                for i in range(boxes):
+                    w, h, d = sent[i] if i < len(sent) else (0, 0, 0)
+                    lines.append(f"$$${w / 10}pt,{h / 10}pt,{d / 10}pt")
+                    if rng.random() < 0.3:
+                        lines.append("Overfull \\hbox (badness 10000) $$ not a measure line")
+                lines.append(")")
+                return "\n".join(lines)
+
+            tex.tex_compile = fake_compile
+            got = mc.safe(tex.measure, texts)
+            if isinstance(got, mc.Raised):
+                out.append({"op": "measure", "texts": k, "sent": sent, "got": [[-1, -1, -1]], "exc": got.text})
+            else:
+                out.append({"op": "measure", "texts": k, "sent": sent,
+                            "got": [[round(b.width * 10), round(b.height * 10), round(b.depth * 10)] for b in got]})
+    finally:
+        tex.tex_compile = original
+    return out
 
 
 def run(ctx):
@@ -158,13 +196,16 @@ def run(ctx):
                 big.append((inp, m, "dtl", orient, rng.randrange(10 ** 6), None))
     results += run_jobs(big)
     ctx.stage("E3 render")
+    results += measure_events(rng, 200 if thorough else 40)
     for event in results:
+        if event["op"] == "measure":
+            continue
         if event["lay_losses"] or event["lay_arrows"]:
             ctx.nontrivial.add((tuple(event["in"]["ot"]), tuple(event["in"]["st"]), tuple(event["in"]["lm"]),
                                 tuple(event["m"]), event["orient"]))
     ctx.sample({"engine": "E2-trace", "event": results[len(results) // 2]})
     mc.validate_sessions(ctx, "TraceDrawing", [[e] for e in results], relevant=CLAUSES, count_traces=len(results),
-                         describe=lambda e, cl: f"drawing ({e['orient']}) of mapping {e['m']} on {e['in']} violates {cl}: "
+                         describe=lambda e, cl: f"tex.measure on canned engine output violates {cl}: {e}" if e["op"] == "measure" else f"drawing ({e['orient']}) of mapping {e['m']} on {e['in']} violates {cl}: "
                                                 f"exc {e['exc']!r} layout events {e['lay_events']} losses {e['lay_losses']} "
                                                 f"arrows {e['lay_arrows']} / drawn {e['tikz_events']} {e['tikz_losses']} "
                                                 f"{e['tikz_arrows']} {e['problems']}")
